@@ -213,7 +213,7 @@ def instance_sets(rng, tier):
                    (torch.float32, (), 2), (torch.float32, (2,), 3), (torch.float32, (2, 3), 2), (torch.float32, (1,), 1)]
     else:
         for dtype in (torch.float64, torch.float32):
-            for batch in BATCHES + [(1, 2), (3, 1)]:
+            for batch in BATCHES + [(1, 2), (3, 1), (2, 2)]:
                 for n in (1, 2, 3):
                     combos.append((dtype, batch, n))
     return combos
